@@ -25,6 +25,9 @@ func StreamWrite(sw stream.Writer, v tbin.Value) error {
 	case tbin.Double:
 		return sw.WriteDouble(float64frombits(v.D))
 	case tbin.Binary:
+		if BinaryAsString {
+			return sw.WriteString(string(v.B))
+		}
 		return sw.WriteBinary(v.B)
 	case tbin.Struct:
 		if err := sw.WriteStructBegin(); err != nil {
@@ -113,6 +116,11 @@ func StreamRead(sr stream.Reader, t tbin.Type) (tbin.Value, error) {
 		v.D = float64bits(x)
 		return v, err
 	case tbin.Binary:
+		if BinaryAsString {
+			str, err := sr.ReadString()
+			v.B = []byte(str)
+			return v, err
+		}
 		b, err := sr.ReadBinary()
 		if err != nil {
 			return v, err
